@@ -136,15 +136,15 @@ def record():
         for ext, ttext in exts.items():
             if not isinstance(ext, int) or ext < 0 or ext > 0xFFFFFFFF or not (0 <= st <= 255):
                 continue
+            msgs = [bytes(10) + bytes([st, 2]) + ext.to_bytes(4, "little")]          # two additional-status words
             if ext <= 0xFFFF:
-                msg = bytes(10) + bytes([st, 1]) + ext.to_bytes(2, "little")
-            else:
-                msg = bytes(10) + bytes([st, 2]) + ext.to_bytes(4, "little")
-            try:
-                text = get_extended_status(msg, 10) or ""
-            except Exception:
-                text = ""
-            events.append({"op": "ext", "table": 1, "ttext": cps(ttext), "text": cps(text)})
+                msgs.append(bytes(10) + bytes([st, 1]) + ext.to_bytes(2, "little"))  # one word
+            for msg in msgs:
+                try:
+                    text = get_extended_status(msg, 10) or ""
+                except Exception:
+                    text = ""
+                events.append({"op": "ext", "table": 1, "ttext": cps(ttext), "text": cps(text)})
     # truth table of Tag.__bool__ (clause C03:truthiness, reported by C03)
     for value in [None, 0, "", [], False, 1, "x", 0.0, {}]:
         for error in [None, "", "e"]:
